@@ -39,8 +39,18 @@ func (m *wireMon) checkFragmentOrder(X int, c *wChunk, ti *tsnInfo) {
 	}
 	want := c.fsn - 1
 	found := false
+	var bad *tsnInfo
+	var badF uint32
+	// a re-opened stream starts its MIDs again: only the fragments from the latest first
+	// fragment of this (stream, U, MID) onwards belong to this message
+	var start *tsnInfo
 	for _, o := range sm.sent {
-		if o.idata && o.sid == c.sid && o.u == c.unordered && o.mid == c.mid && o != ti {
+		if o.idata && o.b && o.sid == c.sid && o.u == c.unordered && o.mid == c.mid && wSNA32LT(o.tsn, c.tsn) && (start == nil || wSNA32LT(start.tsn, o.tsn)) {
+			start = o
+		}
+	}
+	for _, o := range sm.sent {
+		if o.idata && o.sid == c.sid && o.u == c.unordered && o.mid == c.mid && o != ti && start != nil && !wSNA32LT(o.tsn, start.tsn) {
 			f := o.fsn
 			if o.b {
 				f = 0
@@ -48,11 +58,14 @@ func (m *wireMon) checkFragmentOrder(X int, c *wChunk, ti *tsnInfo) {
 			if f == want && wSNA32LT(o.tsn, c.tsn) {
 				found = true
 			}
-			if f >= c.fsn && wSNA32LT(o.tsn, c.tsn) && o.msg == ti.msg {
-				w.violate("C17", "fsn-out-of-order", "%s emitted fragment FSN %d of message (stream %d, MID %d) at TSN %d after FSN %d at TSN %d", m.name(X), c.fsn, c.sid, c.mid, c.tsn, f, o.tsn)
-				return
+			if f >= c.fsn && wSNA32LT(o.tsn, c.tsn) && (bad == nil || wSNA32LT(o.tsn, bad.tsn)) {
+				bad, badF = o, f
 			}
 		}
+	}
+	if bad != nil {
+		w.violate("C17", "fsn-out-of-order", "%s emitted fragment FSN %d of message (stream %d, MID %d) at TSN %d after FSN %d at TSN %d", m.name(X), c.fsn, c.sid, c.mid, c.tsn, badF, bad.tsn)
+		return
 	}
 	if !found {
 		w.violate("C17", "fsn-gap", "%s emitted fragment FSN %d of message (stream %d, MID %d, U=%v) at TSN %d but FSN %d was never emitted before it", m.name(X), c.fsn, c.sid, c.mid, c.unordered, c.tsn, want)
